@@ -12,6 +12,7 @@ CONSTANTS
   Depth = %(depth)d
   Seed = 0
   Runs = 0
+  VBlocks = %(vblocks)d
 %(view)s
 INVARIANTS GenInv %(dump)s
 CHECK_DEADLOCK FALSE
@@ -21,7 +22,7 @@ CHECK_DEADLOCK FALSE
 def gen_edges(ctx, keys, vals):
     """Every (model state, operation) pair of Mpt over the given universe, as call histories."""
     cfg = GEN_CFG % dict(spec="GenSpec", keys=", ".join(map(str, keys)), vals=", ".join(map(str, vals)),
-                         depth=40, view="VIEW MptView", dump="")
+                         depth=40, view="VIEW MptView", dump="", vblocks=0)
     res = ctx.tlc("MptGen", cfg_text=cfg, timeout=900)
     hs = parse_hist(ctx, res)
     if not hs:
@@ -35,13 +36,26 @@ def gen_edges(ctx, keys, vals):
 
 def gen_deep(ctx, keys, vals, num, depth):
     cfg = GEN_CFG % dict(spec="DeepSpec", keys=", ".join(map(str, keys)), vals=", ".join(map(str, vals)),
-                         depth=depth, view="", dump="Dump")
+                         depth=depth, view="", dump="Dump", vblocks=0)
     cfg = cfg.replace("Seed = 0", "Seed = %d" % (ctx.seed % 1000)).replace("Runs = 0", "Runs = %d" % num)
     res = ctx.tlc("MptGen", cfg_text=cfg, timeout=1200)
     hs = parse_hist(ctx, res)
     if len(hs) != num:
         raise Inconclusive("TLC generated %d of %d deep histories" % (len(hs), num))
     return res, [{"mode": "full", "prefix": [], "ops": h} for h in hs]
+
+
+def gen_versions(ctx, keys, vals, vblocks, sweep):
+    """Histories that commit vblocks+1 versions, each one change away from the previous (delete + re-insert, overwrite
+    back to an old value ...), each followed by the fan of Cap calls that flush exactly the m oldest nodes, m = 1..sweep, and Cap(0)."""
+    cfg = GEN_CFG % dict(spec="VerSpec", keys=", ".join(map(str, keys)), vals=", ".join(map(str, vals)),
+                         depth=0, view="", dump="VerDump", vblocks=vblocks)
+    res = ctx.tlc("MptGen", cfg_text=cfg, timeout=1200)
+    hs = parse_hist(ctx, res)
+    if not hs:
+        raise Inconclusive("TLC generated no version histories")
+    fan = [["P", 0, m] for m in range(1, sweep + 1)] + [["P", 0, 0]]
+    return res, [{"mode": "fan", "prefix": h, "ops": fan} for h in hs]
 
 
 def run(ctx):
@@ -55,13 +69,19 @@ def run(ctx):
     # 2. TLC-generated histories (model -> code)
     runs = []
     if quick:
-        universes = [([2, 3, 6], [1, 7]), ([2, 3, 4, 5, 6], [1]), ([1, 7, 8], [4, 6])]
-        deep = [([1, 2, 3, 4, 5, 6, 7, 8], [1, 2, 3, 4, 5, 6, 7, 8], 120, 30), ([2, 3, 4, 5, 6], [1, 2], 120, 30)]
+        universes = [([2, 3, 6], [1, 7]), ([2, 3, 4, 5, 6], [1]), ([1, 7, 8], [4, 6]), ([9, 10, 11, 12], [1])]
+        deep = [([1, 2, 3, 4, 5, 6, 7, 8], [1, 2, 3, 4, 5, 6, 7, 8], 80, 30), ([2, 3, 4, 5, 6], [1, 2], 80, 30),
+                # long keys (nodes deeper than 255 nibbles), values of 1 / 31 / 32 / 33 bytes
+                ([9, 10, 11, 12, 13, 14, 15, 16], [1, 5, 6, 9], 40, 25)]
+        versions = [([3, 4, 5], [7, 8], 3, 18)]
     else:
         universes = [([2, 3, 4, 6], [1, 7]), ([1, 5, 7, 8], [4, 6]), ([2, 3, 4, 5, 6], [1, 2]), ([2, 3, 4], [2, 3, 4]),
                      ([3, 6, 7, 8], [5, 8])]
         deep = [([1, 2, 3, 4, 5, 6, 7, 8], [1, 2, 3, 4, 5, 6, 7, 8], 3000, 40),
-                ([2, 3, 4, 5], [3, 4, 5, 6], 1500, 40), ([2, 3, 4, 5, 6], [1, 2], 1500, 40)]
+                ([2, 3, 4, 5], [3, 4, 5, 6], 1500, 40), ([2, 3, 4, 5, 6], [1, 2], 1500, 40),
+                ([9, 10, 11, 12, 13, 14, 15, 16], [1, 5, 6, 9], 600, 30), ([6, 7, 8, 15, 16], [5, 6, 9], 400, 30)]
+        universes.append(([9, 10, 11, 12, 13], [6]))
+        versions = [([3, 4, 5], [7, 8], 5, 24), ([3, 4, 6, 7], [7], 4, 24), ([9, 10, 11, 12], [7], 3, 24)]
     hists, gens = [], []
     n_edges = 0
     for keys, vals in universes:
@@ -70,6 +90,14 @@ def run(ctx):
         hists += hs
         n_edges += ne
     n_states = len(hists)
+    n_versions = 0
+    for keys, vals, vblocks, sweep in versions:
+        res, hs = gen_versions(ctx, keys, vals, vblocks, sweep)
+        gens.append(res)
+        hists += hs
+        n_versions += len(hs)
+        n_edges += len(hs) * (sweep + 1)
+        n_states += len(hs)
     for keys, vals, num, depth in deep:
         res, hs = gen_deep(ctx, keys, vals, num, depth)
         gens.append(res)
@@ -118,6 +146,7 @@ def run(ctx):
         "real_calls": calls,
         "model_edges_replayed": n_edges,
         "simulated_histories_replayed": n_deep,
+        "version_histories_with_cap_sweep": n_versions,
         "action_coverage": base["coverage"],
         "samples": samples,
         "exhaustive": True,
@@ -133,7 +162,8 @@ def run(ctx):
         "prefix of another is yielded after it (this is upstream go-ethereum's documented order; with equal-length keys it is bytes order)",
         "keccak-256 and RLP used for the reference digest are golang.org/x/crypto/sha3 and a 100-line encoder in "
         "harness/internal/trieutil, self-tested against the empty-trie root, the doe/dog/dogglesworth root and a single-leaf vector at start-up",
-        "key universe: 8 byte keys (empty key, prefix pair, divergence after odd/even nibble counts, 32-byte keys sharing 63 / 1 nibbles); "
-        "values of 1, 28, 29, 31, 32, 40, 56 bytes (embedded/hashed boundary, 32-byte value, long-string RLP header)",
+        "key universe: 16 byte keys (empty key, prefix pair, divergence after odd/even nibble counts, 32-byte keys sharing 63 / 1 nibbles; "
+        "keys of 64, 127, 128, 129, 255, 256 bytes sharing 1, 127, 128 bytes, several of them prefixes of others: nodes deeper than 255 nibbles); "
+        "values of 1, 28, 29, 31, 32, 33, 40, 56 bytes (embedded/hashed boundary, 32-byte value, long-string RLP header)",
         "the in-memory node graph is read by reflection (no source hook)",
     ])
